@@ -198,6 +198,10 @@ pub fn run_pipeline(
             Ok(fds) => fds_capture_stdout = Some(fds),
             Err(e) => {
                 println_stderr!("cicada: pipeline2: {}", e);
+                for fds in pipes {
+                    libs::close(fds.0);
+                    libs::close(fds.1);
+                }
                 return (false, CommandResult::error());
             }
         }
@@ -209,6 +213,10 @@ pub fn run_pipeline(
                     libs::close(fds.1);
                 }
                 println_stderr!("cicada: pipeline3: {}", e);
+                for fds in pipes {
+                    libs::close(fds.0);
+                    libs::close(fds.1);
+                }
                 return (false, CommandResult::error());
             }
         }
